@@ -73,7 +73,7 @@ def display_table(F, chk):
 def fromstr_table(F, chk):
     """(whole-literal arms, prefix arms, fallthrough result, all paths)"""
     b = F.one(name="from_str", impl_trait="FromStr", self_is=SELF_CODES)
-    paths = mir.walk_inline(b, F)          # nested / private helpers are walked in context
+    paths = mir.walk_inline(b, F, adapters=False)          # nested / private helpers are walked in context
     whole, prefix = {}, {}
     fallthrough = []
     s_arg = ("arg", 1, mir.argname(1, b["locals"][1]["name"]))
